@@ -99,7 +99,7 @@ def compile_ir(cmd, outdir, flavour='configured', extra=()):
     p1 = subprocess.run(args, capture_output=True, text=True, cwd=cmd['dir'])
     if p1.returncode != 0:
         raise AnalysisBroken(f'clang failed on {cmd["unit"]} [{flavour}]:\n{p1.stderr[-2000:]}')
-    passes = os.environ.get('LECVERIF_PASSES', 'mem2reg')
+    passes = os.environ.get('LECVERIF_PASSES', NORMALISE)
     p2 = subprocess.run(['opt-14', '-S', '-passes=' + passes, '-o', '-'], input=p1.stdout, text=True, capture_output=True)
     if p2.returncode != 0:
         raise AnalysisBroken(f'opt failed on {cmd["unit"]}: {p2.stderr[-2000:]}')
@@ -107,6 +107,12 @@ def compile_ir(cmd, outdir, flavour='configured', extra=()):
     with open(out, 'w') as fh:
         fh.write(text)
     return out
+
+# normalisation applied to every unit before any rule looks at it: SSA construction, trivial simplification, common
+# subexpression / redundant load elimination, threading of branches over phi-of-constants (status variables, merged error
+# exits) and CFG clean-up (if-chains on one value become a switch, two-armed diamonds become selects).  Behaviour-preserving
+# rewrites of the source converge on the same shape; nothing is inlined except helpers that are new w.r.t. the reference tree.
+NORMALISE = 'function(mem2reg,instsimplify,early-cse,jump-threading,simplifycfg,instsimplify)'
 
 _known = None
 def known_functions():
@@ -146,7 +152,7 @@ def normalise_new_helpers(text, unit):
     text = '\n'.join(lines)
     for g, (ng, body) in added.items():
         text += f'\nattributes {ng} = {{{body}}}\n'
-    post = os.environ.get('LECVERIF_POST_INLINE', 'function(mem2reg)')
+    post = os.environ.get('LECVERIF_POST_INLINE', NORMALISE)
     p = subprocess.run(['opt-14', '-S', '-passes=always-inline,' + post + ',globaldce', '-o', '-'], input=text, text=True, capture_output=True)
     if p.returncode != 0:
         raise AnalysisBroken(f'inlining of new helpers failed on {unit}: {p.stderr[-1500:]}')
